@@ -19,7 +19,7 @@ def run(ctx, replay):
                         "auth", timeout=2400)
         scen = []
         n = 0
-        for h in authcommon.focus(ctx, 260 if quick else None):
+        for h in authcommon.focus(ctx, 300 if quick else None):
             n += 1
             scen.append(authcommon.to_scenario(n, h))
         for (depth, num) in ([(10, 40), (16, 40)] if quick else [(10, 500), (16, 500), (22, 300)]):
